@@ -135,6 +135,7 @@ def handle : List String → Option String
     let t' ← t.toInt?
     let v' ← ofHex v
     pure (chunksOut (scalarChunks t' v'))
+  | ["c15getterbatch"] => some (toString Gen.C15Batch.getterBatch)
   | ["c15consts"] => some (",".intercalate (Gen.C15Batch.consts.map (fun c => toString c.2.2.2)))
   | "c15search" :: ws => (parseRows ws).map (fun r => hexOut (searchBody r))
   | "c15trace" :: ws => (parseRows ws).map (fun r => hexOut (traceBody r))
